@@ -44,6 +44,13 @@ calling the application.  None of this is an input of the model: the instance mu
 pieces outside an instance its messages are observed at its own boundary (a recording shim between the piece and the
 instance hands it a send that records, then forwards), so what the outer pieces add on the way out is excluded by
 construction, not by filtering header names; "wire" in a result is what reached the server.
+Collaborators have a Python shape besides their behaviour: builder["shape"] (function | partial | method |
+dict_call_nonempty | dict_call | list_call | len0 | boolfalse: callable objects, the last four FALSY as objects),
+builder["async"] (`async def __call__`), "guard_shape" / "app_shape" (falsy guard object / falsy wrapped application;
+on the case for its own instance, on an "outer" layer for that one).  The model is told only that a builder is
+configured.  guard["cache"] = lru | dict | deepcopy | readonly | pickle gives the case's real Guard a fresh decision
+cache of that kind; "warmup": k = k identical requests went through the stack before the judged one (miss, then hits);
+the decision handed to the model is then the one a cache-less Guard over the same policy computes.
 Observables (per instance call): the ordered trace of build_env / evaluate_async /
 send / downstream calls with their arguments (scope content at that moment, identity
 of receive/send, the four builder objects, which guard was consulted, message
@@ -178,11 +185,109 @@ def _mk_decision(d, missing):
 
 _GUARDS: dict = {}
 _REC_GUARD = []
+_REC_SHAPED: dict = {}
+CACHE_KINDS = ["lru", "dict", "deepcopy", "readonly", "pickle"]
+FALSY_SHAPES = ["dict_call", "list_call", "len0", "boolfalse"]
+TRUTHY_SHAPES = ["function", "partial", "method", "dict_call_nonempty"]
 
 
-def _real_guard(gspec, variant=0):
-    """one recording Guard per (policy, strict, variant) — no cache configured, so evaluations are independent;
-    `variant` tells apart distinct Guard objects over the same policy (stacked layers, a foreign Guard in the scope)."""
+def _shaped(fn, shape):
+    """`fn` as a callable of another Python shape: a functools.partial, a bound method, or a callable OBJECT — a
+    dict / list subclass with __call__ (empty: falsy; with an entry: truthy), an object whose __len__ is 0, an object
+    whose __bool__ is False.  All of them work as callables; only their truth value as Python objects differs."""
+    if shape in (None, "function"):
+        return fn
+    if shape == "partial":
+        import functools
+        return functools.partial(fn)
+
+    def call(self, *a):
+        return fn(*a)
+    if shape == "method":
+        return type("BuilderWithMethod", (), {"build": call})().build
+    if shape in ("dict_call", "dict_call_nonempty"):
+        o = type("RouteTableCallable", (dict,), {"__call__": call})()
+        if shape == "dict_call_nonempty":
+            o["/health"] = "skip"
+        return o
+    if shape == "list_call":
+        return type("ListCallable", (list,), {"__call__": call})()
+    if shape == "len0":
+        return type("SizedCallable", (), {"__call__": call, "__len__": lambda self: 0})()
+    if shape == "boolfalse":
+        return type("FalsyCallable", (), {"__call__": call, "__bool__": lambda self: False})()
+    raise ValueError("unknown shape %r" % (shape,))
+
+
+def _falsy_class(cls, shape):
+    """a subclass of a guard class whose instances are falsy as Python objects (and work as before)."""
+    if not shape:
+        return cls
+    k = (cls, shape)
+    if k not in _REC_SHAPED:
+        extra = {"boolfalse": {"__bool__": lambda self: False}, "len0": {"__len__": lambda self: 0}}[shape]
+        _REC_SHAPED[k] = type(cls.__name__ + "_" + shape, (cls,), extra)
+    return _REC_SHAPED[k]
+
+
+def _mk_cache(kind):
+    """decision caches of several legitimate kinds (rbacx.core.cache.AbstractCache): the built-in LRU, a dict-backed
+    one storing values as they are, one handing out deep copies, one handing out read-only views of what it stores,
+    one storing pickles.  Every one counts its hits / misses."""
+    import copy
+    import pickle
+    from rbacx.core.cache import DefaultInMemoryCache
+
+    class _Count:
+        hits = misses = 0
+
+        def note(self, v):
+            if v is None:
+                self.misses += 1
+            else:
+                self.hits += 1
+            return v
+
+    if kind in ("lru", "readonly"):
+        class Lru(_Count, DefaultInMemoryCache):
+            def get(self, key):
+                v = self.note(DefaultInMemoryCache.get(self, key))
+                if kind == "readonly" and isinstance(v, dict):
+                    return types.MappingProxyType(v)
+                return v
+        return Lru()
+
+    class DictCache(_Count):
+        def __init__(self):
+            self.d = {}
+
+        def get(self, key):
+            v = self.note(self.d.get(key))
+            if v is None:
+                return None
+            if kind == "deepcopy":
+                return copy.deepcopy(v)
+            if kind == "pickle":
+                return pickle.loads(v)
+            return v
+
+        def set(self, key, value, ttl=None):
+            self.d[key] = pickle.dumps(value) if kind == "pickle" else value
+
+        def delete(self, key):
+            self.d.pop(key, None)
+
+        def clear(self):
+            self.d.clear()
+    if kind not in ("dict", "deepcopy", "pickle"):
+        raise ValueError("unknown cache kind %r" % (kind,))
+    return DictCache()
+
+
+def _real_guard(gspec, variant=0, shape=None, caches=None):
+    """one recording Guard per (policy, strict, variant, shape) — no cache configured, so evaluations are independent;
+    `variant` tells apart distinct Guard objects over the same policy (stacked layers, a foreign Guard in the scope).
+    With gspec["cache"] (and a list `caches` to collect it): a FRESH Guard with a fresh decision cache of that kind."""
     from rbacx.core.engine import Guard
 
     if not _REC_GUARD:
@@ -202,10 +307,15 @@ def _real_guard(gspec, variant=0):
                 return d
 
         _REC_GUARD.append(RecGuard)
-    key = json.dumps([gspec["policy"], bool(gspec.get("strict")), variant], sort_keys=True)
+    cls = _falsy_class(_REC_GUARD[0], shape)
+    if gspec.get("cache") and caches is not None:
+        c = _mk_cache(gspec["cache"])
+        caches.append(c)
+        return cls(json.loads(json.dumps(gspec["policy"])), strict_types=bool(gspec.get("strict")), cache=c)
+    key = json.dumps([gspec["policy"], bool(gspec.get("strict")), variant, shape], sort_keys=True)
     g = _GUARDS.get(key)
     if g is None:
-        g = _REC_GUARD[0](json.loads(json.dumps(gspec["policy"])), strict_types=bool(gspec.get("strict")))
+        g = cls(json.loads(json.dumps(gspec["policy"])), strict_types=bool(gspec.get("strict")))
         if len(_GUARDS) > 4000:
             _GUARDS.clear()
         _GUARDS[key] = g
@@ -277,10 +387,11 @@ def layer_specs(case):
         out.append({"mode": l["mode"], "add_headers": l["add_headers"], "builder": l["builder"],
                     "guard": l.get("guard", "own"), "eval": l.get("eval"), "gspec": l.get("gspec"),
                     "request": l.get("request"), "expect_allowed": l.get("expect_allowed"), "init": l.get("init"),
-                    "pre": l.get("pre") or []})
+                    "pre": l.get("pre") or [], "guard_shape": l.get("guard_shape"), "app_shape": l.get("app_shape")})
     out.append({"mode": case["mode"], "add_headers": case["add_headers"], "builder": case["builder"],
                 "guard": "primary", "eval": case.get("eval"), "gspec": case.get("guard"), "request": None,
-                "init": case.get("init"), "pre": case.get("pre") or [],
+                "init": case.get("init"), "pre": case.get("pre") or [], "guard_shape": case.get("guard_shape"),
+                "app_shape": case.get("app_shape"),
                 "expect_allowed": (case.get("guard") or {}).get("expect_allowed")})
     return out
 
@@ -383,7 +494,9 @@ async def run_impl(case):
     has_env = bool(case.get("inner") or case.get("ambient") or any(sp.get("pre") for sp in specs))
     _logctx.clear_current_trace_id()     # every case starts with no request id in force (all cases share one task)
     gspec = case.get("guard")
-    primary = _real_guard(gspec, 0) if gspec else StubGuard(run, case["eval"])
+    caches = []                          # the decision caches of this case's Guards (fresh per case)
+    primary = _real_guard(gspec, 0, specs[-1]["guard_shape"], caches) if gspec \
+        else _falsy_class(StubGuard, specs[-1]["guard_shape"])(run, case["eval"])
     run.objs.append(primary)
     real_guards = [primary] if gspec else []
 
@@ -396,22 +509,28 @@ async def run_impl(case):
             if gspec:
                 L.gspec = {"policy": gspec["policy"], "strict": gspec.get("strict"),
                            "request": sp.get("request") or gspec["request"], "expect_allowed": sp["expect_allowed"]}
+                if gspec.get("cache"):
+                    L.gspec["cache"] = gspec["cache"]
             else:
                 L.ev = case["eval"]
         elif sp.get("gspec"):
             L.gspec = dict(sp["gspec"], expect_allowed=sp["expect_allowed"])
-            L.guard = _real_guard(L.gspec, i + 1)
+            L.guard = _real_guard(L.gspec, i + 1, sp["guard_shape"], caches)
             real_guards.append(L.guard)
             run.objs.append(L.guard)
         else:
             L.ev = sp["eval"]
-            L.guard = StubGuard(run, L.ev)
+            L.guard = _falsy_class(StubGuard, sp["guard_shape"])(run, L.ev)
             run.objs.append(L.guard)
         if L.gspec:
             req = _request_objects(L.gspec["request"])
             L.guard._verif_hook = None
+            # the engine's answer for this request, computed outside the middleware; for a Guard with a decision cache:
+            # by a cache-less Guard over the same policy (the cached one meets the request through the middleware only)
+            ref = L.guard if getattr(L.guard, "cache", None) is None else \
+                _real_guard({"policy": L.gspec["policy"], "strict": L.gspec.get("strict")}, 700)
             try:
-                d0 = await L.guard.evaluate_async(*req)
+                d0 = await ref.evaluate_async(*req)
                 L.es = {"k": "ret", "d": _dec_fields(d0)}
             except BaseException as e:  # noqa: BLE001
                 L.es = {"k": "raise", "exc": type(e).__name__}
@@ -438,7 +557,7 @@ async def run_impl(case):
             return primary
         if name not in run.named_objs:
             if name == "other_guard":
-                o = _real_guard(gspec, 99) if gspec else StubGuard(run, {"k": "raise", "exc": "RuntimeError"})
+                o = _real_guard(gspec, 99, None, caches) if gspec else StubGuard(run, {"k": "raise", "exc": "RuntimeError"})
                 if gspec:
                     real_guards.append(o)
             else:
@@ -467,6 +586,8 @@ async def run_impl(case):
         g._verif_hook = mk_hook(g)
 
     # ----- env builders
+    coros = []
+
     def mk_builder(L):
         b = L.spec["builder"]
         if b is None:
@@ -480,8 +601,14 @@ async def run_impl(case):
                 raise EXC[b["exc"]]("scripted builder failure")
             if b["k"] == "notiter":
                 return None
+            if b.get("async"):           # `async def __call__`: the caller gets a coroutine object, not the four objects
+                async def later():
+                    return tuple(L.items)
+                co = later()
+                coros.append(co)
+                return co
             return tuple(L.items)
-        return build_env
+        return _shaped(build_env, b.get("shape"))
 
     # ----- receive / send / downstream
     nsend = [0]
@@ -609,7 +736,7 @@ async def run_impl(case):
     for i in range(n - 1, -1, -1):
         L = run.layers[i]
         sp = L.spec
-        app_i = mk_shim(i)
+        app_i = _shaped(mk_shim(i), sp.get("app_shape"))
         cur = {"guard": L.guard, "mode": sp["mode"], "build_env": mk_builder(L), "add_headers": sp["add_headers"]}
         init = sp.get("init")
         if not init:
@@ -636,7 +763,7 @@ async def run_impl(case):
             first["build_env"] = None if init["builder"] is None else mk_stale_builder(L)
         if init.get("guard") == "other":
             if L.gspec:
-                og = _real_guard(L.gspec, 50 + i)
+                og = _real_guard(L.gspec, 50 + i, None, caches)
                 og._verif_hook = mk_hook(og)
                 real_guards.append(og)
             else:
@@ -664,7 +791,7 @@ async def run_impl(case):
     if (case.get("ambient") or {}).get("trace_id") is not None:
         # ambient request state: the caller set a request id through the public API before calling the application
         amb_token = _logctx.set_current_trace_id(case["ambient"]["trace_id"])
-    if case.get("warmup"):               # a request served before the attributes are reassigned; not judged
+    for _w in range(int(case.get("warmup") or 0)):   # requests served before (the attributes are reassigned); not judged
         try:
             await top(make_scope(), receive, send)
         except BaseException:  # noqa: BLE001
@@ -678,6 +805,8 @@ async def run_impl(case):
             L.entered, L.entry, L.app_snap, L.scope_after, L.end = False, None, None, None, None
             L.recv_in, L.send_in, L.down_exc = None, None, None
         run.msgs, run.wire, run.stray, run.fly = [], [], [], 0
+        for c_ in caches:
+            c_.hits = c_.misses = 0
         nsend[0] = 0
         final_apps[0] = 0
     try:
@@ -720,6 +849,10 @@ async def run_impl(case):
         res["wire"] = run.wire     # for the reader of a replay: what the server saw after the outer pieces' additions
     if run.stray:
         res["sent_outside_any_instance"] = run.stray
+    for co in coros:
+        co.close()
+    if caches:
+        res["cache"] = {"hits": sum(c_.hits for c_ in caches), "misses": sum(c_.misses for c_ in caches)}
     return res
 
 
@@ -733,9 +866,9 @@ def model_line(u):
     b = v["builder"]
     if b is None:
         mb = None
-    elif b["k"] == "ret":
-        mb = ["ret", ITEM_IDS[: b.get("n", 4)]]
-    elif b["k"] == "notiter":
+    elif b["k"] == "ret" and not b.get("async"):
+        mb = ["ret", ITEM_IDS[: b.get("n", 4)]]     # the builder's Python shape (function / callable object, truthy or
+    elif b["k"] == "notiter" or b.get("async"):     # falsy) is not an input of the model: a builder is configured
         mb = ["notiter"]
     else:
         mb = ["raise", b["exc"]]
@@ -793,7 +926,7 @@ def _category(case, eval_spec):
     if not py_checked(case):
         return "passthrough"
     b = case["builder"]
-    if b["k"] != "ret" or b.get("n", 4) != 4:
+    if b["k"] != "ret" or b.get("n", 4) != 4 or b.get("async"):
         return "builder_fails"
     if eval_spec["k"] == "raise":
         return "evaluate_raises"
@@ -844,7 +977,7 @@ def judge_direct(chk, case, res, already=False):
         if not (http and isinstance(li["mode"], str) and li["mode"] == "enforce" and li["builder"] is not None):
             continue
         b, es = li["builder"], li["es"]
-        if b["k"] != "ret" or b.get("n", 4) != 4:
+        if b["k"] != "ret" or b.get("n", 4) != 4 or b.get("async"):
             block = ("builder_fails", i)
         elif es["k"] == "raise":
             block = ("evaluate_raises", i)
@@ -912,7 +1045,7 @@ def check_cases(chk, cases, replay=False):
         checked = py_checked(c)
         surrogate = ood_surrogate(c)
         nontriv = checked or (es["k"] == "raise" or (es["k"] == "ret" and not es["d"]["allowed"])
-                              or (c["builder"] or {}).get("k") in ("raise", "notiter"))
+                              or (c["builder"] or {}).get("k") in ("raise", "notiter") or (c["builder"] or {}).get("async"))
         chk.mark(("c20", u["li"], json.dumps(lib.jsonable({k: v for k, v in case.items() if k != "fam"}), sort_keys=True,
                                              default=str)), nontriv)
         chk.count("category:" + cat)
@@ -1039,6 +1172,17 @@ def check_cases(chk, cases, replay=False):
         chk.count("fam:" + case.get("fam", "?"))
         chk.count("instances:%d" % len(res["layers"]))
         chk.count("instances_entered:%d" % len(res["units"]))
+        if "cache" in res:
+            kind = next((sp["gspec"]["cache"] for sp in layer_specs(case) if (sp.get("gspec") or {}).get("cache")), "?")
+            chk.count("decision_cache:%s:judged_request:%s" % (
+                kind, "hit" if res["cache"]["hits"] else "miss" if res["cache"]["misses"] else "engine_not_consulted"))
+        shp = [(l.get("builder") or {}).get("shape") for l in [case] + list(case.get("outer") or [])]
+        if any(x in FALSY_SHAPES for x in shp):
+            chk.count("falsy_collaborator:builder")
+        if any(l.get("guard_shape") for l in [case] + list(case.get("outer") or [])):
+            chk.count("falsy_collaborator:guard")
+        if any(l.get("app_shape") for l in [case] + list(case.get("outer") or [])):
+            chk.count("falsy_collaborator:app")
         if "wire" in res:
             pre_all = [p for sp in layer_specs(case) for p in sp["pre"]]
             chk.count("env:pieces_outside_an_instance:%d" % len(pre_all))
@@ -1220,6 +1364,9 @@ def gen_hostile(chk, n):
         if rng.random() < 0.1:                        # inside other library pieces / under an ambient request id
             _rand_env(rng, case)
             case["fam"] = "hostile:ambient"
+        if rng.random() < 0.08:                       # collaborators that are callable objects, truthy or falsy
+            _rand_shapes(rng, case)
+            case["fam"] = "hostile:shapes"
         yield case
 
 
@@ -1723,6 +1870,125 @@ def _hostile_field_str(rng):
     return "amb"
 
 
+# ---- collaborators that are falsy as Python objects but work; Guards with decision caches, requests sent twice
+def gen_collab_shapes(chk):
+    """the collaborators' Python shape is not an input of the model.  Env builders: plain function, functools.partial,
+    bound method, non-empty dict subclass with __call__ (truthy) and — falsy as objects — an EMPTY dict / list
+    subclass with __call__, an object with __len__ == 0, an object with __bool__ False; sync, and `async def`
+    (the caller gets a coroutine: the four objects cannot be unpacked); x {returns, raises, returns None} x {allow,
+    deny, raise} x mode x add_headers x scope type.  Guards that are falsy objects (subclass with __bool__ False /
+    __len__ 0) and wrapped applications that are falsy callables, crossed with falsy builders; the same in an outer
+    instance of a stack; the real Guard (plain / falsy subclass) x falsy builders over the policy family."""
+    quick = chk.tier == "quick"
+    kinds = (RET4, B_RAISE, {"k": "notiter"}, {"k": "ret", "n": 4, "async": True})
+    for sh, kb, ev, mode, ah, t in itertools.product(TRUTHY_SHAPES + FALSY_SHAPES, kinds, (EV_ALLOW, EV_DENY, EV_RAISE),
+                                                    ("enforce", "inject"), (True,) if quick else (False, True),
+                                                    ("http", "websocket")):
+        yield {"fam": "shape:builder:" + sh, "mode": mode, "add_headers": ah, "scope": _scope(t),
+               "builder": dict(kb, shape=sh), "eval": ev, "send_fail": None, "app_exc": None}
+    for gs, as_, bs, ev, mode in itertools.product((None, "boolfalse", "len0"), (None, "boolfalse", "len0", "dict_call"),
+                                                   ("function", "dict_call", "boolfalse"), (EV_ALLOW, EV_DENY, EV_RAISE),
+                                                   ("enforce", "inject")):
+        if gs is None and as_ is None:
+            continue
+        c = {"fam": "shape:guard_app", "mode": mode, "add_headers": True, "scope": _scope("http"),
+             "builder": dict(RET4, shape=bs), "eval": ev, "send_fail": None, "app_exc": None}
+        if gs:
+            c["guard_shape"] = gs
+        if as_:
+            c["app_shape"] = as_
+        yield c
+    for osh, ogs, oev, ish, ev, oas in itertools.product(FALSY_SHAPES, (None, "boolfalse"), (EV_ALLOW, EV_DENY),
+                                                       ("function", "len0"), (EV_ALLOW, EV_DENY), (None, "len0")):
+        o = {"mode": "enforce", "add_headers": True, "builder": dict(RET4, shape=osh), "guard": "own", "eval": oev}
+        if ogs:
+            o["guard_shape"] = ogs
+        if oas:
+            o["app_shape"] = oas
+        yield {"fam": "shape:stack2", "mode": "enforce", "add_headers": False, "scope": _scope("http"),
+               "builder": dict(RET4, shape=ish), "eval": ev, "send_fail": None, "app_exc": None, "outer": [o]}
+    P = guard_policies()
+    for k, ((pname, (pol, exp)), rname, sh, gs) in enumerate(itertools.product(
+            P.items(), REQUESTS, FALSY_SHAPES[::2] + FALSY_SHAPES[1::2], (None, "boolfalse", "len0"))):
+        if quick and k % 3:
+            continue
+        c = {"fam": "shape:guard:" + pname, "mode": "enforce", "add_headers": True, "scope": _scope("http"),
+             "builder": dict(RET4, shape=sh),
+             "guard": {"policy": pol, "request": REQUESTS[rname], "expect_allowed": exp[rname]},
+             "eval": None, "send_fail": None, "app_exc": None}
+        if gs:
+            c["guard_shape"] = gs
+        yield c
+
+
+def gen_guard_cache(chk):
+    """the real Guard with a decision cache of each kind (built-in LRU, dict-backed, deep copies on get, read-only
+    views on get, pickles) x 14 policies / policy sets (permits with met and unmet obligations, denies, no match) x 3
+    requests x the request judged after 0 / 1 (/ 2) identical requests through the same middleware (miss, then hit);
+    every obligation type unmet x cache kind, judged on the hit; a stack of two enforcing instances sharing the cached
+    Guard (the inner evaluation is the hit).  The engine's reference answer comes from a cache-less Guard."""
+    quick = chk.tier == "quick"
+    P = guard_policies()
+    for (pname, (pol, exp)), rname, kind, warm, ah in itertools.product(
+            P.items(), REQUESTS, CACHE_KINDS, (0, 1) if quick else (0, 1, 2), (True,) if quick else (False, True)):
+        yield {"fam": "guard_cache:" + kind, "mode": "enforce", "add_headers": ah, "scope": _scope("http"), "builder": RET4,
+               "guard": {"policy": pol, "request": REQUESTS[rname], "expect_allowed": exp[rname], "cache": kind},
+               "eval": None, "send_fail": None, "app_exc": None, "warmup": warm}
+    for (oname, (obl, exp)), kind, shape in itertools.product(obligation_policies().items(), CACHE_KINDS, ("rules", "set")):
+        r = _rule("ob", "permit", obligations=obl)
+        pol = {"algorithm": "permit-overrides", "rules": [r]} if shape == "rules" else \
+            {"algorithm": "permit-overrides", "policies": [{"id": "pol-ob", "algorithm": "first-applicable", "rules": [r]}]}
+        yield {"fam": "guard_cache:obligation:" + kind, "mode": "enforce", "add_headers": shape == "set",
+               "scope": _scope("http"), "builder": RET4,
+               "guard": {"policy": pol, "request": REQUESTS["read"], "expect_allowed": exp, "cache": kind},
+               "eval": None, "send_fail": None, "app_exc": None, "warmup": 1}
+    for k, ((pname, (pol, exp)), rname, kind) in enumerate(itertools.product(P.items(), REQUESTS, CACHE_KINDS)):
+        if quick and k % 3:
+            continue
+        yield {"fam": "guard_cache:stack2:" + kind, "mode": "enforce", "add_headers": True, "scope": _scope("http"),
+               "builder": RET4,
+               "guard": {"policy": pol, "request": REQUESTS[rname], "expect_allowed": exp[rname], "cache": kind},
+               "eval": None, "send_fail": None, "app_exc": None,
+               "outer": [{"mode": "enforce", "add_headers": False, "builder": RET4, "guard": "same",
+                          "expect_allowed": exp[rname]}]}
+
+
+def with_caches(chk, cases):
+    """the other families that drive a real Guard through the middleware, again with a decision cache: a copy of the
+    case whose Guard has a cache and which was preceded by one identical request (judged on the hit).  Thorough: every
+    such case (whose own instance consults its engine) x every kind; quick: every 3rd case, kinds in rotation.  Cases with a history of reconfiguration keep
+    their own meaning of "warmup" and are left alone."""
+    quick = chk.tier == "quick"
+    k = 0
+    for c in cases:
+        if not c.get("guard") or c["guard"].get("cache") or c.get("init") or c.get("warmup") \
+                or c.get("fam", "").startswith("ood") or not py_checked(c) or _category(c, EV_ALLOW) != "allowed":
+            continue                                  # (only where the case's own instance consults its engine)
+        k += 1
+        if quick and k % 3:
+            continue
+        for kind in ([CACHE_KINDS[(k // 3) % len(CACHE_KINDS)]] if quick else CACHE_KINDS):
+            d = json.loads(json.dumps(c))
+            d["guard"]["cache"] = kind
+            d["warmup"] = 1
+            d["fam"] = "cached:" + c.get("fam", "?").split(":")[0]
+            yield d
+
+
+def _rand_shapes(rng, case):
+    """random Python shapes for the collaborators of a case (its own instance and the outer ones)."""
+    pool = TRUTHY_SHAPES + FALSY_SHAPES * 2
+    for l in [case] + list(case.get("outer") or []):
+        if l.get("builder") is not None and rng.random() < 0.8:
+            l["builder"] = dict(l["builder"], shape=rng.choice(pool))
+            if l["builder"]["k"] == "ret" and l["builder"].get("n", 4) == 4 and rng.random() < 0.1:
+                l["builder"]["async"] = True
+        if rng.random() < 0.3 and (l is case or l.get("guard") == "own"):
+            l["guard_shape"] = rng.choice(["boolfalse", "len0"])
+        if rng.random() < 0.3:
+            l["app_shape"] = rng.choice(FALSY_SHAPES)
+
+
 # ---- the real Guard over a family of small policies
 def _rule(rid, effect, action="read", **kw):
     r = {"id": rid, "effect": effect, "actions": [action], "resource": {"type": "doc"}}
@@ -1951,6 +2217,15 @@ def run(chk):
                 "raises}, the shapes under inject / ENFORCE / websocket / lifespan and with failing send / raising "
                 "application, two instances with pieces outside / between / below, 14 policies x 3 requests x add_headers "
                 "x 4 shapes x inbound id over the real Guard — messages observed at the middleware's own boundary; "
+                "collaborators by Python shape: env builders {function, partial, bound method, non-empty dict subclass with "
+                "__call__, EMPTY dict / list subclass with __call__, __len__ == 0, __bool__ False} x {returns, raises, "
+                "returns None, async def} x {allow, deny, raise} x mode x scope type, falsy guard objects x falsy wrapped "
+                "applications x falsy builders, the same in an outer instance, real Guard (plain / falsy subclass) x falsy "
+                "builders x 14 policies x 3 requests; the real Guard with a decision cache {built-in LRU, dict-backed, deep "
+                "copies, read-only views, pickles} x 14 policies x 3 requests x judged after 0 / 1 (/ 2) identical requests "
+                "(miss, hit), 20 obligation policies x cache kind x 2 policy shapes on the hit, two enforcing instances "
+                "sharing the cached Guard, and cached copies (one identical request before) of the other real-Guard "
+                "families' enforcing cases; "
                 "then seeded random hostile decisions (non-ASCII, "
                 "quotes, CR/LF, 5000 chars, the word "
                 "Forbidden, None, non-strings, truthy/falsy non-bool `allowed`), hostile modes/scope types, stale or "
@@ -1988,6 +2263,15 @@ def run(chk):
         "(families ambient:*, guard_ambient:*, hostile:ambient); messages are observed where they leave the instance "
         "(a recording shim between it and the piece outside it), so the headers the outer pieces add on the way out "
         "(TraceIdMiddleware: its request-id header) are not part of the observation; the model did not change",
+        "the collaborators' Python shape is not an input of the model: a builder is 'configured' iff it is not None, "
+        "whatever its truth value as an object (empty container with __call__, __len__ == 0, __bool__ False), likewise "
+        "for guard objects and the wrapped application; an `async def` builder hands the middleware a coroutine, from "
+        "which the four objects cannot be unpacked — modelled as the builder result that is not iterable (TypeError, "
+        "downstream not run) (families shape:*, hostile:shapes)",
+        "a Guard with a decision cache must answer a repeated request as a cache-less Guard over the same policy does "
+        "(the reference decision handed to the model is computed by such a Guard); caches: built-in LRU, dict-backed, "
+        "deep copies on get, read-only MappingProxyType views of the stored entry on get, pickles; each case builds a "
+        "fresh Guard and cache, so a replay is self-contained (families guard_cache:*, cached:*)",
         "a stacked deployment is judged instance by instance: the model is a single instance, its downstream's "
         "behaviour (exception class) is taken from what the next instance was observed to do; the end-to-end reading "
         "(judge_direct) does not use the model",
@@ -2002,7 +2286,9 @@ def run(chk):
              + list(gen_request_shapes(chk)) + list(gen_histories(chk)) + list(gen_guard_histories(chk))
              + list(gen_challenges(chk)) + list(gen_guard_challenges(chk))
              + list(gen_ambient(chk)) + list(gen_guard_ambient(chk))
+             + list(gen_collab_shapes(chk)) + list(gen_guard_cache(chk))
              + list(gen_ood_surrogate(chk)))
+    cases += list(with_caches(chk, cases))
     chk.exhaustive = True
     cases += list(gen_hostile(chk, 8000 if quick else 150000))
     cases += list(gen_guard_hostile(chk, 800 if quick else 12000))
